@@ -165,6 +165,7 @@ R.contract(
     prop="C04",
     args={"failures": Seq(Opq("FailureObj"))},
     raises=["Failure", "FailureGroup", "FailureObj"],
+    inline=True,  # callers execute the real body (5 lines)
     ensures={"returns_only_when_empty": "length(failures) == 0 and result is None"},
     raises_ensures={
         "single_failure_itself": "implies(length(failures) == 1, raised == 'FailureObj')",
@@ -226,6 +227,220 @@ R.contract(
         "every_failure_reported_exactly_once": "ghost('reported') == ghost('expected')",
         "success_recorded_per_passing_check": "implies(on_success is not None, ghost('succeeded') == ghost('passed'))",
     },
+)
+
+
+# ------------------------------------------------------------------------------------------------- which definition / which schema a response is validated against
+ST = "status_code"
+NOT_DEFAULT = "k != 'default'"
+EXACT = f"to_str(k) == to_str({ST})"
+R.contract(UT + "matches_status_code", args={"pattern": OneOf(Str, Int), "status_code": Int}, returns=Bool, trusted=True,
+           call_ensures={"same_relation_as_expand_status_code": "iff(result, code_matches(to_str(pattern), status_code))"},
+           note="E5: proved equal to membership in expand_status_code(pattern) by complete enumeration (stand-in `expand_status_code_full_domain`)")
+
+
+def _distinct_str_keys(it, d):
+    """No two keys of the mapping have the same str() (a YAML document with both 200 and '200' is not a response map one can look things up in)."""
+    from pyvc.interp import Env
+    from pyvc.ops import truthy, z_and
+    from pyvc.values import wrap
+
+    ks = list(d.keys())
+    out = True
+    for i in range(len(ks)):
+        for j in range(i):
+            env = Env()
+            env.vars.update({"a": ks[i], "b": ks[j]})
+            out = z_and(out, truthy(it.eval_spec("to_str(a) != to_str(b)", env)))
+    return out if isinstance(out, bool) else wrap(out)
+
+
+R.spec_funcs["distinct_str_keys"] = _distinct_str_keys
+# facts about the matching relation established by the complete enumeration (stand-in): `default` is not a code pattern
+FIND_REQUIRES = ["distinct_str_keys(responses)", f"not code_matches('default', {ST})"]
+FIND_ENSURES = {
+    # the definition used is the one selected by exact code, else a matching NXX range, else `default`
+    "exact_code_wins": f"all(implies({EXACT}, result is responses[k]) for k in responses if {NOT_DEFAULT})",
+    "else_a_matching_range": f"implies(not any({EXACT} for k in responses if {NOT_DEFAULT}) and any(code_matches(to_str(k), {ST}) for k in responses if {NOT_DEFAULT}), "
+                             f"any(result is responses[k] and code_matches(to_str(k), {ST}) for k in responses if {NOT_DEFAULT}))",
+    "else_default_or_nothing": f"implies(not any({EXACT} or code_matches(to_str(k), {ST}) for k in responses if {NOT_DEFAULT}), "
+                               "(result is responses['default']) if 'default' in responses else (result is None))",
+}
+
+
+def _found(it, env):
+    cands = [(None, True)] + [(v, True) for v in env["responses"].values()]
+    return it.path.choose(cands, "found-definition")
+
+
+R.contract(
+    OAS + "_find_response_definition",
+    prop="C04",
+    args={"responses": Responses, "status_code": IntRange(100, 599)},
+    requires=list(FIND_REQUIRES),
+    returns=_found,
+    ensures=dict(FIND_ENSURES),
+    raises=[],
+    bounded_note="response maps with up to 2 symbolic keys + 'default'",
+)
+
+
+def _validate_extern(it, a, k):
+    """E3 jsonschema.validate(data, schema, ...): returns or raises ValidationError; the ghost records WHAT was validated against WHAT."""
+    from pyvc.interp import PyExc
+
+    it.ghost["validated"] = (a[0], a[1])
+    ok = it.path.choose([(True, True), (False, True)], "jsonschema.validate:ok")
+    it.ghost["valid"] = ok
+    if not ok:
+        raise PyExc(it.make_exc(it.resolve_exc_class("ValidationError", None), ()))
+    return None
+
+
+R.extern["jsonschema.validate"] = _validate_extern
+R.exception_classes["ValidationError"] = "Exception"
+R.exception_classes["JSONDecodeError"] = "ValueError"
+R.contract("schemathesis.core.transport:Response.json", args={"self": Opq("Any")}, returns=Opq("JsonData"), raises=["JSONDecodeError"], trusted=True,
+           effects={"parsed": "raised is None"}, note="E5 json.loads of the body: a document or JSONDecodeError")
+R.contract(MT + "is_json", args={"value": Str}, returns=Bool, pure=True, trusted=True, note="application/json or +json suffix (over media_types.parse, stand-in)")
+R.alias("is_json", MT + "is_json")
+for _f in ("schemathesis.core.failures:MalformedJson.from_exception", "schemathesis.openapi.checks:JsonSchemaError.from_exception"):
+    R.contract(_f, abstract_only=True, args={}, returns=(lambda cls: (lambda it, env: it.make_exc(it.resolve_exc_class(cls, None), ())))(_f.rsplit(".", 1)[0]),
+               note="failure object constructor (message formatting): an instance of the class")
+R.contract(OAS + "BaseOpenAPISchema._validating_response", args={"self": Opq("Any"), "scopes": Opq("Any")},
+           returns=lambda it, env: it.B.NoopCM(fresh_opaque(it, "ConvResolver")), trusted=True, note="context manager: a ConvertingResolver positioned in the given scopes (E3)")
+JSchema = Opq("JSchema")
+
+
+def _resp_schema(it, env):
+    """Abstract get_response_schema: in the `selection` variant the definition has no schema (the function returns right after the lookup)."""
+    variant = getattr(it.top_contract, "variant", None)
+    schema = None if variant == "selection" else JSchema.make(it, it.path.fresh("schema_of_definition"))
+    return (fresh_opaque(it, "Scopes"), schema)
+
+
+R.contract(OAS + "BaseOpenAPISchema.get_response_schema", args={"self": Opq("Any"), "definition": Opq("Any"), "scope": Opq("Any"), "content_type": Opq("Any")}, returns=_resp_schema, trusted=True,
+           effects={"selected": "definition", "schema": "result[1]", "asked_ct": "content_type"},
+           note="schema of the given response definition for the given media type (own contract below for 3.x: OpenApi30.get_response_schema)")
+OpObj = lambda responses: Obj("schemathesis.schemas:APIOperation", label=Str, schema=Obj("spec:SchemaCfg", output_config=Opq("OutputConfig")),
+                              definition=Obj("schemathesis.schemas:OperationDefinition", raw=DictOf(required={"responses": responses}), scope=Str))
+RespV = Obj("schemathesis.core.transport:Response", status_code=IntRange(100, 599), headers=DictOf(optional={"content-type": ListOf(Str, [1])}))
+RESP = "resp_of(operation)"
+RS = "response.status_code"
+SELECT = {
+    "a_documented_definition_is_consulted": f"implies(any(code_matches(to_str(k), {RS}) for k in {RESP} if {NOT_DEFAULT}) or 'default' in {RESP}, ghost('selected') != 'none')",
+    "consulted_definition_is_the_matching_one": f"implies(ghost('selected') != 'none', any({RESP}[k] is ghost('selected') and "
+                                                f"(code_matches(to_str(k), {RS}) if {NOT_DEFAULT} else not any(code_matches(to_str(k2), {RS}) for k2 in {RESP} if k2 != 'default')) for k in {RESP}))",
+    "exact_code_wins": f"all(implies({NOT_DEFAULT} and to_str(k) == to_str({RS}), ghost('selected') is {RESP}[k]) for k in {RESP})",
+}
+VR_GHOST = {"selected": "none", "schema": None, "validated": None, "valid": None, "parsed": None, "documented": [], "asked_ct": "not-asked"}
+# a code matches itself (complete enumeration, stand-in); the preconditions of the lookup helper
+VR_REQUIRES = [f"code_matches(to_str({RS}), {RS})", f"not code_matches('default', {RS})", f"distinct_str_keys({RESP})"]
+SelfV = Obj(OAS + "BaseOpenAPISchema", validator_cls=Opq("ValidatorCls"))
+R.contract(
+    OAS + "BaseOpenAPISchema.validate_response",
+    variant="selection",
+    prop="C04",
+    args={"self": SelfV, "operation": OpObj(KeyedDict(Str, RespDef, sizes=(0, 1, 2), optional={"default": RespDef})), "response": RespV},
+    requires=list(VR_REQUIRES),
+    ghost=dict(VR_GHOST),
+    raises=[],
+    ensures=dict(SELECT),
+    replayable=False,
+    bounded_note="response maps with up to 2 symbolic keys + 'default'",
+)
+R.contract(
+    OAS + "BaseOpenAPISchema.validate_response",
+    variant="validation",
+    prop="C04",
+    args={"self": SelfV, "operation": OpObj(DictOf(required={"default": RespDef})), "response": RespV},
+    requires=list(VR_REQUIRES),
+    ghost=dict(VR_GHOST),
+    raises=["Failure", "FailureGroup"],
+    ensures={
+        # a deviating response is never passed: with a documented schema the Content-Type must be there, and a JSON body must have been validated against THAT schema and be valid
+        "passes_only_if_conforming": "has_ct(response) and implies(is_json(ct_of(response)), "
+                                     "ghost('parsed') is True and ghost('validated') is not None and ghost('validated')[1] is ghost('schema') and ghost('valid') is True)",
+        "schema_of_the_consulted_definition": "ghost('selected') is resp_of(operation)['default']",
+        # ... the schema documented for the media type of THIS response
+        "schema_requested_for_the_received_media_type": "same_ct(ghost('asked_ct'), response)",
+    },
+    raises_ensures={
+        # a conforming response never yields a failure
+        "fails_only_if_deviating": "not has_ct(response) or ghost('parsed') is False or ghost('valid') is False",
+        "validated_against_the_schema_of_the_definition": "implies(ghost('validated') is not None, ghost('validated')[1] is ghost('schema'))",
+        "schema_requested_for_the_received_media_type": "same_ct(ghost('asked_ct'), response)",
+    },
+    replayable=False,
+)
+R.spec_funcs["resp_of"] = lambda it, operation: operation.fields["definition"].fields["raw"].get("responses", {})
+
+
+def _same_ct(it, asked, response):
+    h = response.fields["headers"]
+    if "content-type" in h and len(h["content-type"]) > 0:
+        return asked is h["content-type"][0]
+    return asked is None
+
+
+R.spec_funcs["same_ct"] = _same_ct
+
+# ---- OpenAPI 3.x: the schema of the media type that matches the response's Content-Type
+MediaDef = DictOf(optional={"schema": Opq("SchemaDef")})
+Content = KeyedDict(Str, MediaDef, sizes=(0, 1, 2))
+SAME = "(mt_ok(m) and mt_main(m) == mt_main(content_type) and mt_sub(m) == mt_sub(content_type))"
+RANGE = "(mt_ok(m) and mt_match(m, content_type))"
+
+
+def _first_value(it, d):
+    vals = list(d.values())
+    return vals[0] if vals else None
+
+
+R.spec_funcs["first_value"] = _first_value
+
+
+def _found_media(it, env):
+    cands = [(None, True)] + [(v, True) for v in env["content"].values()]
+    return it.path.choose(cands, "found-media-type")
+
+
+R.contract(
+    OAS + "_find_media_type_definition",
+    prop="C04",
+    args={"content": Content, "content_type": OneOf(NoneT, Str)},
+    returns=_found_media,
+    raises=[],
+    ensures={
+        "exact_media_type_wins": f"implies(content_type is not None and mt_ok(content_type) and any({SAME} for m in content), any(result is content[m] and {SAME} for m in content)) "
+                                 "if content_type is not None else True",
+        "else_a_matching_range": f"implies(mt_ok(content_type) and not any({SAME} for m in content) and any({RANGE} for m in content), any(result is content[m] and {RANGE} for m in content)) "
+                                 "if content_type is not None else True",
+        "else_the_first_documented": f"implies(not mt_ok(content_type) or not any({RANGE} for m in content), result is first_value(content)) "
+                                     "if content_type is not None else (result is first_value(content))",
+    },
+    bounded_note="up to 2 documented media types",
+)
+R.contract("schemathesis.specs.openapi.references:InliningResolver.resolve_in_scope", args={"self": Opq("Resolver"), "item": Opq("Any"), "scope": Opq("Any")},
+           returns=lambda it, env: (fresh_opaque(it, "Scopes"), DictOf(optional={"content": Content}).make(it, it.path.fresh("resolved_definition"))), trusted=True,
+           effects={"definition": "result[1]"}, note="E3: (scopes, the response definition with $ref resolved)")
+R.contract("schemathesis.specs.openapi.converter:to_json_schema_recursive", args={"schema": Opq("SchemaDef"), "nullable_name": Opq("Any"), "is_response_schema": Bool, "update_quantifiers": Bool},
+           returns=Opq("JSchema"), pure=True, trusted=True, note="C01 contracts: OpenAPI schema -> JSON Schema (nullable, writeOnly for responses)")
+R.alias("conv", "schemathesis.specs.openapi.converter:to_json_schema_recursive")
+fm = R.contracts[OAS + "_find_media_type_definition"]
+fm.effects = {"option": "result", "asked_ct": "content_type", "asked_content": "content"}
+R.contract(
+    OAS + "OpenApi30.get_response_schema",
+    prop="C04",
+    args={"self": Obj(OAS + "OpenApi30", resolver=Opq("Resolver"), nullable_name=Const("nullable")), "definition": Opq("RespDef"), "scope": Str, "content_type": OneOf(NoneT, Str)},
+    ghost={"option": "not-asked", "asked_ct": "not-asked", "asked_content": None, "definition": None},
+    raises=[],
+    ensures={
+        "media_type_chosen_for_the_given_content_type": "((ghost('asked_ct') is None) if content_type is None else (ghost('asked_ct') == content_type)) and ghost('asked_content') is ghost('definition').get('content', ghost('asked_content')) "
+                                                        "and implies('content' not in ghost('definition'), length(ghost('asked_content')) == 0)",
+        "schema_of_the_chosen_media_type": "(result[1] == conv(ghost('option')['schema'], 'nullable', True, False)) if (ghost('option') is not None and 'schema' in ghost('option')) else (result[1] is None)",
+    },
+    bounded_note="up to 2 documented media types",
 )
 
 LEVEL_TEXT = ("Deductive: status-code verdict (both directions), content-type verdict with wildcards, definition selection and failure plumbing are "
@@ -371,6 +586,26 @@ def expand_status_code_full_domain(tier, seed):
         n += 1
         if set(expand_status_code(k)) != {k}:
             viol.append({"key": k})
+    # matches_status_code (used to select the response definition) is the SAME relation on every 3-digit status, `default` / extension keys match nothing,
+    # and every code matches itself - the facts the deductive contracts assume about `code_matches`
+    try:
+        from schemathesis.specs.openapi.utils import matches_status_code
+    except ImportError:
+        matches_status_code = None
+    if matches_status_code is not None:
+        for a in alphabet:
+            for b in alphabet:
+                for c in alphabet:
+                    key = a + b + c
+                    members = set(expand_status_code(key))
+                    for s in range(100, 1000):
+                        n += 1
+                        if matches_status_code(key, s) != (s in members) and len(viol) < 3:
+                            viol.append({"key": key, "status": s, "matches_status_code": matches_status_code(key, s)})
+        for s in range(100, 600):
+            n += 1
+            if not matches_status_code(s, s) or not matches_status_code(str(s), s) or matches_status_code("default", s) or matches_status_code("x-ext", s):
+                viol.append({"status": s, "problem": "self / default / extension key"})
     return {"name": "expand_status_code_full_domain", "bound": "all 12^3 keys over [0-9Xx] x all codes 000..999 (complete)", "evaluations": n,
             "exhaustive": True, "violations": viol}
 
@@ -414,3 +649,59 @@ def media_type_parse(tier, seed):
 
 
 BOUNDED = [expand_status_code_full_domain, media_type_parse]
+
+
+def _n_distinct_str_keys(d):
+    ks = [str(k) for k in d]
+    return len(set(ks)) == len(ks)
+
+
+def _n_model_code_matches(key, status):
+    from pyvc import nativelib as N
+
+    return N.uf_call("uf:code_matches", str(key), status, default=_n_code_matches)
+
+
+NATIVE["helpers"].update({"distinct_str_keys": _n_distinct_str_keys, "first_value": lambda d: next(iter(d.values()), None)})
+# matches_status_code is stubbed from the model's call log in this replay, so the relation is read from the model as well
+R.contracts[OAS + "_find_response_definition"].native_helpers = {"code_matches": _n_model_code_matches}
+
+
+def _concretize_find_media(inputs):
+    """Model strings are arbitrary; build real media types `main/sub` whose parse agrees with the model's mt_ok / mt_main / mt_sub (same scheme as above)."""
+    ufs = inputs.get("ufs", {})
+
+    def table(name):
+        t = ufs.get(name) or {"rows": [], "else": None}
+        rows = {r[0][0]: r[1] for r in t["rows"]}
+        return lambda s: rows.get(s, t["else"])
+
+    ok, main, sub = table("uf:mt_ok"), table("uf:mt_main"), table("uf:mt_sub")
+    tokens = {}
+
+    def tok(v):
+        v = (v or '""').strip('"')
+        if v == "*":
+            return "*"
+        if v not in tokens:
+            tokens[v] = f"t{len(tokens)}"
+        return tokens[v]
+
+    def real(s):
+        key = '"' + s + '"'
+        if str(ok(key)).lower() != "true":
+            return "malformed-" + tok(s)
+        return f"{tok(main(key))}/{tok(sub(key))}"
+
+    a = inputs["args"]
+    if isinstance(a.get("content_type"), str):
+        a["content_type"] = real(a["content_type"])
+    c = a.get("content")
+    if isinstance(c, dict) and c.get("__t") == "dictitems":
+        c["v"] = [[real(k) if isinstance(k, str) else k, v] for k, v in c["v"]]
+    elif isinstance(c, dict) and c.get("__t") == "dict":
+        c["v"] = {real(k): v for k, v in c["v"].items()}
+    return inputs
+
+
+R.contracts[OAS + "_find_media_type_definition"].concretize = _concretize_find_media
